@@ -164,6 +164,14 @@ def _merge_lemma(reg):
         gotc = to_sympy(fld(env["c"], "count", s2), syms).subs(sub)
         obls.append(Obligation(f"{key}/identity:count", "poly-identity", [], z3.BoolVal(bool(sp.expand(gotc - na - nb) == 0)), key,
                                fi.node.lineno, "P", "count", extra={"backend": "sympy normal form"}))
+        # extrema of the union: element-wise the larger maximum / the smaller minimum of the two parts (z3, on the
+        # terms stored by the real body; j is an arbitrary in-range element)
+        rng = [j >= 0, j < n]
+        for f, ge in (("max", True), ("min", False)):
+            ca, cb, cc = fld(env["a"], f, st), fld(env["b"], f, st), fld(env["c"], f, s2)
+            goal = z3.And(cc >= ca, cc >= cb, z3.Or(cc == ca, cc == cb)) if ge else \
+                z3.And(cc <= ca, cc <= cb, z3.Or(cc == ca, cc == cb))
+            obls.append(Obligation(f"{key}/union:{f}", "post", list(s2.pc) + rng, goal, key, fi.node.lineno, "P", f))
         return obls, ("ok", "")
     c.build = build
     reg.add(c)
